@@ -299,6 +299,32 @@ def run_leg_shard(prop: str, leg: Leg, tier: str, seed: int, shard: int, nshards
             excluded.add(vv.kind)
             # search on behind this root cause
             continue
+        except BaseException as e:  # noqa: BLE001
+            # Hypothesis reports a violation that does not reproduce identically on replay (code under test
+            # that became non-deterministic, e.g. reads a global RNG) as Flaky / an exception group: it is
+            # still a violation found by the oracle, reported with the last failing case (not shrunk)
+            def _viol(x):
+                if isinstance(x, Violation):
+                    return x
+                for sub in getattr(x, "exceptions", ()) or ():
+                    r = _viol(sub)
+                    if r is not None:
+                        return r
+                for sub in (getattr(x, "__cause__", None), getattr(x, "__context__", None)):
+                    if sub is not None and sub is not x:
+                        r = _viol(sub)
+                        if r is not None:
+                            return r
+                return None
+
+            vv = _viol(e)
+            if vv is None or st.last_fail is None:
+                raise
+            case, lv = st.last_fail
+            st.failures.append({"kind": lv.kind, "detail": ("[did not reproduce identically on replay] " + lv.detail)[:2000],
+                                "case": case, "leg": leg.name})
+            excluded.add(lv.kind)
+            continue
     st.wall_s = time.time() - t0
     return st.to_json()
 
